@@ -254,6 +254,77 @@ pub fn c12_history(cfg: &CardCfg, nops: usize, seed: u64, prop: &str, rep: &mut 
                 return;
             }
         }
+        // now and then a transfer that does not fit on the card: it must fail, leave the card's
+        // memory alone (except for the part of a multiple-block write that did fit) and the bus clean
+        if rng.chance(1, 16) {
+            let n = *rng.pick(&[1usize, 1, 2, 3]);
+            let nb = rig.nblocks;
+            let cands = [nb, nb + 1, nb + 511, nb.saturating_sub(1).max(1), 1u64 << 23, (1u64 << 23) + 3, 1u64 << 31, u32::MAX as u64, u32::MAX as u64 - 1, nb * 2];
+            let mut idx = *rng.pick(&cands);
+            if idx + n as u64 <= nb {
+                idx = nb - n as u64 + 1; // straddles the end
+            }
+            if idx > u32::MAX as u64 {
+                idx = u32::MAX as u64;
+            }
+            let idx = idx as u32;
+            let write = rng.chance(1, 2);
+            let mem_before: HashMap<u32, [u8; 512]> = rig.bus.borrow().card.mem.clone();
+            let mut blocks = vec![Block::new(); n];
+            for (k, b) in blocks.iter_mut().enumerate() {
+                for (i, x) in b.contents.iter_mut().enumerate() {
+                    *x = crate::fsx::payload_byte(0x0B5E ^ opi as u32, (k * 512 + i) as u32);
+                }
+                // a payload that would do harm if a card ever parsed it as commands
+                let f = [0x40u8, 0, 0, 0, 0];
+                b.contents[16..21].copy_from_slice(&f);
+                b.contents[21] = card::crc7_ref(&f);
+            }
+            let bound = rig.initialised_bound(n);
+            let r = if write { rig.call(bound, |sd| sd.write(&blocks, BlockIdx(idx))) } else { rig.call(bound, |sd| sd.read(&mut blocks, BlockIdx(idx)).map(|_| ())) };
+            let step = format!("op {} {} {} blocks @ {} on a card of {} blocks", opi, if write { "write" } else { "read" }, n, idx, nb);
+            rep.evaluations += 1;
+            rep.count("out_of_range_transfers", 1);
+            match r {
+                Err((pm, loc)) => {
+                    rep.violate(v12(if write { "C12.write-elsewhere" } else { "C12.read" }, if write { "write" } else { "read" }, "out of range: panic", format!("{}: panic '{}' at {} [{}]", step, pm, report::short_loc(&loc), cfg.describe()), case(&step)));
+                    return;
+                }
+                Ok(Ok(())) => {
+                    rep.violate(v12(if write { "C12.write-elsewhere" } else { "C12.read" }, if write { "write" } else { "read" }, "out of range: Ok", format!("{}: returned Ok although the transfer does not fit on the card [{}]", step, cfg.describe()), case(&step)));
+                    return;
+                }
+                Ok(Err(_)) => {}
+            }
+            {
+                let st = rig.bus.borrow();
+                for (k, vv) in st.card.mem.iter() {
+                    let in_prefix = write && (*k as u64) >= idx as u64 && (*k as u64) < idx as u64 + n as u64;
+                    if !in_prefix && mem_before.get(k) != Some(vv) {
+                        let msg = format!("{}: block {} of the card changed [{}]", step, k, cfg.describe());
+                        drop(st);
+                        rep.violate(v12("C12.write-elsewhere", if write { "write" } else { "read" }, "out of range: bystander block", msg, case(&step)));
+                        return;
+                    }
+                }
+            }
+            // the part of a write that fitted may or may not be there: adopt what the card holds
+            if write {
+                let cur: Vec<(u32, [u8; 512])> = {
+                    let st = rig.bus.borrow();
+                    (0..n as u64).map(|k| idx as u64 + k).filter(|b| *b < nb).map(|b| (b as u32, st.card.block(b as u32))).collect()
+                };
+                for (b, c) in cur {
+                    rig.shadow.insert(b, c);
+                }
+            }
+            if drain_c14(&rig, cfg, "transfer that does not fit on the card", rep) && prop == "C14" {
+                return;
+            }
+            // the card may be left mid-conversation by a driver that gave up: start afresh
+            last_write = None;
+            continue;
+        }
         let n = match rng.below(10) {
             0 => 2,
             1 => 3 + rng.usize_below(6),
@@ -629,6 +700,8 @@ enum FaultSpec {
     Card(Misbehave),
     /// n-th frame of a command (ACMD | 0x80) answered with this R1 instead of being executed
     R1(u8, u32, u8),
+    /// n-th CMD8 answered with these four bytes after R1 (wrong echo / voltage)
+    R7(u32, [u8; 4]),
 }
 
 /// Fresh card, initialise fault-free (unless the op IS the initialisation), apply fault, run op, judge.
@@ -657,6 +730,7 @@ fn c13_case(cfg: &CardCfg, op: OpK, fault: &FaultSpec, which_block: u32, label: 
             FaultSpec::SpiError(t) => b.fail_transaction = Some(*t),
             FaultSpec::Card(m) => b.card.misbehave = m.clone(),
             FaultSpec::R1(c, n, val) => b.card.inject = Inject { r1_override: Some((*c, *n, *val)), ..Default::default() },
+            FaultSpec::R7(n, bytes) => b.card.inject = Inject { r7: Some((*n, *bytes)), ..Default::default() },
         }
     }
     let o = do_op(&mut rig, op, idx, 0xABCD);
@@ -673,8 +747,17 @@ fn c13_case(cfg: &CardCfg, op: OpK, fault: &FaultSpec, which_block: u32, label: 
             let mut b = rig.bus.borrow_mut();
             b.fail_transaction = None;
             b.card.end_call_checks();
-            b.card.violations.clear();
+            if matches!(fault, FaultSpec::R1(..) | FaultSpec::R7(..)) {
+                // the card refused a command or answered it oddly, but stayed a consistent
+                // conversation partner: what the driver clocked out in that very call must still
+                // be frames and idle bytes (the state-dependent rules are not applied here)
+                b.card.violations.retain(|(rule, _)| matches!(rule.as_str(), "C14.stray-byte" | "C14.bad-start-bits" | "C14.end-bit" | "C14.bad-crc7"));
+            } else {
+                b.card.violations.clear();
+            }
+            let kept: Vec<(String, String)> = b.card.violations.drain(..).collect();
             b.card.heal();
+            b.card.violations = kept;
         }
         rig.sd.mark_card_uninit();
         let mut one = [Block::new()];
@@ -683,7 +766,7 @@ fn c13_case(cfg: &CardCfg, op: OpK, fault: &FaultSpec, which_block: u32, label: 
         let bound = rig.initialised_bound(2);
         let _ = rig.call(bound, |sd| sd.write(&blocks, BlockIdx(idx)));
         let _ = rig.call(bound, |sd| sd.read(&mut blocks, BlockIdx(idx)).map(|_| ()));
-        drain_c14(&rig, cfg, "calls after an error", rep);
+        drain_c14(&rig, cfg, &format!("calls after an error ({:?}: {})", op, label), rep);
         rep.count("aftermath_conversations_checked", 1);
         return Some(o);
     }
@@ -768,6 +851,7 @@ fn c13_case(cfg: &CardCfg, op: OpK, fault: &FaultSpec, which_block: u32, label: 
                 }
             }
         }
+        FaultSpec::R7(..) => {}
         FaultSpec::Card(m) => {
             let garbage = matches!(m, Misbehave::Garbage(..) | Misbehave::Constant(..));
             if o.ok && o.corrupted {
@@ -938,8 +1022,16 @@ pub fn run_c13_cases(ctx: &Ctx, c14_only: bool) -> Report {
                 continue;
             }
             let (t, b) = (o.transactions, o.bytes);
+            // (h) CMD8 answered with a wrong echo / voltage pattern, first or second time
+            if op == OpK::Init && cfg.kind != Kind::V1Sdsc {
+                for nth in 0..2u32 {
+                    for bytes in [[0u8, 0, 1, 0x2A], [0, 0, 1, 0xAB], [0, 0, 0, 0xAA], [0x12, 0x34, 0x01, 0x55], [0xFF, 0xFF, 0xFF, 0xFF], [0, 0, 1, 0x00]] {
+                        work.push((ci, op, FaultSpec::R7(nth, bytes), 0, format!("answers CMD8 #{} with R7 {:02x?}", nth, bytes)));
+                    }
+                }
+            }
             // (g) every command of the fault-free call answered abnormally instead of being executed
-            if !c14_only {
+            {
                 let call_id = rig.bus.borrow().card.call_id;
                 let mut seen: Vec<(u8, u32)> = Vec::new();
                 let mut counts: HashMap<u8, u32> = HashMap::new();
@@ -952,7 +1044,11 @@ pub fn run_c13_cases(ctx: &Ctx, c14_only: bool) -> Report {
                     *n += 1;
                 }
                 for (key, nth) in seen {
-                    for val in [0x05u8, 0x04, 0x09, 0x08, 0x40, 0x20, 0x10, 0x02, 0x7F, 0x01, 0x00] {
+                    let vals: &[u8] = if c14_only { &[0x05, 0x09, 0x40] } else { &[0x05, 0x04, 0x09, 0x08, 0x40, 0x20, 0x10, 0x02, 0x7F, 0x01, 0x00] };
+                    if c14_only && nth > 0 {
+                        continue;
+                    }
+                    for &val in vals {
                         let cname = if key & 0x80 != 0 { format!("ACMD{}", key & 0x3F) } else { format!("CMD{}", key) };
                         work.push((ci, op, FaultSpec::R1(key, nth, val), 0, format!("answers {} #{} with R1 {:#04x} without executing it", cname, nth, val)));
                     }
